@@ -164,9 +164,12 @@ class Fault:
 
 
 class FaultPlan:
-    def __init__(self, faults=()):
+    def __init__(self, faults=(), shared_instances=False):
         self.faults = list(faults)
         self.ncalls = {}
+        # shared_instances: the user code raises one module-level exception object again and again
+        # (`ERR = ValueError("m"); raise ERR`) instead of a fresh instance per failure
+        self.shared = {} if shared_instances else None
 
     def check(self, sim, fn, args):
         n = self.ncalls.get(fn, 0)
@@ -183,6 +186,10 @@ class FaultPlan:
                 continue
             f.fired += 1
             sim.probe("user_fault_fired")
+            if self.shared is not None:
+                if f.exc_kind not in self.shared:
+                    self.shared[f.exc_kind] = make_exc(f.exc_kind)
+                return self.shared[f.exc_kind]
             return make_exc(f.exc_kind)
         return None
 
